@@ -148,7 +148,7 @@ def assign_to(ctx, fr, path, tgt, v):
                 ea = v.ann[1][i]
             elif v.ann is not None and v.ann[0] in ("list", "seq"):
                 ea = v.ann[1]
-            el = Val(simp(items[i] if items is not None and len(items) == n else seq[i]), ea,
+            el = Val(simp(items[i]) if items is not None and len(items) == n else smt.nth(seq, i), ea,
                      own="imm" if not ann_mutable(ea) else v.own, deep=v.deep)
             from .values import ann_fact
             f = ann_fact(el.t, ea, ctx.ct)
